@@ -724,3 +724,148 @@ pub fn replay(h: &str, b: &[u8]) -> (bool, String) { let m = ncheck(); (m.is_emp
     for v in vs:
         full.append("%s%s" % (v[0], body(v, "", False)))
     return Prog(name, text, [], {"describe": ("enum " if is_enum else "struct ") + " | ".join(full) + " entry=" + entry}, ncheck=True)
+
+
+# ------------------------------------------------------------------------------------------------ C20
+C20_SUPPORT = r'''
+pub fn gk<T: ?Sized>(_x: &T) -> u8 { 0 }
+pub fn gby_ord<T: ?Sized>(_a: &T, _b: &T) -> core::cmp::Ordering { core::cmp::Ordering::Equal }
+pub fn gby_partial_ord<T: ?Sized>(_a: &T, _b: &T) -> Option<core::cmp::Ordering> { None }
+pub fn gby_eq<T: ?Sized>(_a: &T, _b: &T) -> bool { true }
+pub fn gby_partial_eq<T: ?Sized>(_a: &T, _b: &T) -> bool { true }
+pub fn gby_hash<T: ?Sized, H: core::hash::Hasher>(_a: &T, _h: &mut H) {}
+pub trait Marker {}
+impl<T: ?Sized> Marker for T {}
+/// operator-capable generic field type with a lifetime
+#[derive(Clone, Copy, Debug, Default, PartialEq, Eq, PartialOrd, Ord, Hash)]
+pub struct Lt<'a>(pub u8, pub core::marker::PhantomData<&'a ()>);
+macro_rules! lt_ops { ($($tr:ident $f:ident $atr:ident $af:ident),*) => { $(
+    impl<'a> core::ops::$tr<Lt<'a>> for Lt<'a> { type Output = Lt<'a>; fn $f(self, _r: Lt<'a>) -> Lt<'a> { self } }
+    impl<'a, 'x> core::ops::$tr<&'x Lt<'a>> for Lt<'a> { type Output = Lt<'a>; fn $f(self, _r: &'x Lt<'a>) -> Lt<'a> { self } }
+    impl<'a, 'x> core::ops::$tr<Lt<'a>> for &'x Lt<'a> { type Output = Lt<'a>; fn $f(self, _r: Lt<'a>) -> Lt<'a> { *self } }
+    impl<'a, 'x, 'y> core::ops::$tr<&'y Lt<'a>> for &'x Lt<'a> { type Output = Lt<'a>; fn $f(self, _r: &'y Lt<'a>) -> Lt<'a> { *self } }
+    impl<'a> core::ops::$atr<Lt<'a>> for Lt<'a> { fn $af(&mut self, _r: Lt<'a>) {} }
+    impl<'a, 'x> core::ops::$atr<&'x Lt<'a>> for Lt<'a> { fn $af(&mut self, _r: &'x Lt<'a>) {} }
+)* } }
+lt_ops!(Add add AddAssign add_assign, Sub sub SubAssign sub_assign, Mul mul MulAssign mul_assign, BitXor bitxor BitXorAssign bitxor_assign, Shl shl ShlAssign shl_assign);
+impl<'a> core::ops::Neg for Lt<'a> { type Output = Lt<'a>; fn neg(self) -> Lt<'a> { self } }
+impl<'a, 'x> core::ops::Neg for &'x Lt<'a> { type Output = Lt<'a>; fn neg(self) -> Lt<'a> { *self } }
+impl<'a> core::ops::Not for Lt<'a> { type Output = Lt<'a>; fn not(self) -> Lt<'a> { self } }
+impl<'a, 'x> core::ops::Not for &'x Lt<'a> { type Output = Lt<'a>; fn not(self) -> Lt<'a> { *self } }
+'''
+C20_OPS = ["Add", "Sub", "Mul", "BitXor", "Shl", "AddAssign", "SubAssign", "ShlAssign", "Neg", "Not"]
+
+
+def c20_prog(name, rng, names=None):
+    """a type definition only (strict module: deny(warnings)); names: optional renaming dict for C13"""
+    import refmodel as R, cmpfam
+    nm = {"X": "X", "T": "T", "U": "U", "N": "N", "a": "'a", "f": ["a", "b", "c", "d"], "v": ["A", "B", "C", "D"]}
+    if names:
+        nm.update(names)
+    is_enum = rng.random() < 0.5
+    use_lt = rng.random() < 0.35
+    use_t = rng.random() < 0.6
+    use_n = rng.random() < 0.2
+    ops_struct = (not is_enum) and rng.random() < 0.3
+    T, LT_, N_ = nm["T"], nm["a"], nm["N"]
+    # trait list (supertrait-closed)
+    derived = []
+    cmp_sets = R.closed_subsets()
+    if ops_struct:
+        derived = rng.sample(C20_OPS, rng.randint(1, 4))
+        if rng.random() < 0.5:
+            derived += ["Clone"]
+    else:
+        if rng.random() < 0.8:
+            chosen = rng.choice(cmp_sets)
+            derived += [t for t in R.CMP_TRAITS if t in chosen]
+        derived += rng.sample(["Clone", "Debug", "Default"], rng.randint(0, 3))
+        if "Clone" in derived and rng.random() < 0.3:
+            derived.append("Copy")
+    if not derived:
+        derived = ["Clone"]
+    rng.shuffle(derived)
+    cmpd = tuple(t for t in R.CMP_TRAITS if t in derived)
+    acc = cmpfam.accepted_for(cmpd) if cmpd else None
+    def fty():
+        if ops_struct:
+            opts = ["crate::support::Lt<%s>" % LT_ if use_lt else "crate::support::Lt<'static>"] + ([T] if use_t else [])
+            return rng.choice(opts)
+        opts = ["u8", "bool"]
+        if use_t:
+            opts += [T, "Option<%s>" % T, "core::marker::PhantomData<%s>" % T, "(%s, u8)" % T]
+        if use_n and "Default" not in derived:
+            opts += ["[u8; %s]" % N_] + (["[%s; %s]" % (T, N_)] if use_t else [])
+        if use_lt and "Default" not in derived:
+            opts += ["&%s u8" % LT_] + (["&%s %s" % (LT_, T)] if use_t else [])
+        return rng.choice(opts)
+    def fattrs(ty):
+        out = []
+        if acc and rng.random() < 0.6:
+            c = rng.choice(acc)
+            out.append(R.attr_text(c, key_expr=lambda a: "crate::support::gk(&$)", by_expr=lambda a: "crate::support::gby_" + a))
+        if "Debug" in derived and rng.random() < 0.25:
+            out.append("#[debug(ignore)]")
+        if "Default" in derived and rng.random() < 0.3 and ty in ("u8", "bool"):
+            out.append("#[default(%s)]" % ("7" if ty == "u8" else "true"))
+        return " ".join(out)
+    def mkfields(kind):
+        n = 0 if kind == "unit" else rng.randint(0, 4)
+        fs = []
+        for i in range(n):
+            ty = fty()
+            fs.append((nm["f"][i], ty, fattrs(ty)))
+        return fs
+    def body(kind, fs, pub):
+        if kind == "unit":
+            return ""
+        items = ["%s %s%s%s" % (at, pub, (fn_ + ": ") if kind == "named" else "", ty) for (fn_, ty, at) in fs]
+        return (" { %s }" if kind == "named" else "(%s)") % ", ".join(items)
+    if is_enum:
+        nv = rng.choice([0, 1, 1, 2, 3, 4])
+        vs = []
+        for i in range(nv):
+            kind = rng.choice(["unit", "tuple", "named"])
+            vs.append((nm["v"][i], kind, mkfields(kind)))
+    else:
+        kind = rng.choice(["unit", "tuple", "named"])
+        if any(t in derived for t in ("Deref", "DerefMut")):
+            kind = "tuple"
+        vs = [("X", kind, mkfields(kind))]
+    alltys = " ".join(ty for v in vs for (_, ty, _) in v[2])
+    import re as _re
+    words = _re.findall(r"'?\w+", alltys)
+    gens = []
+    if use_lt and LT_ in words:
+        gens.append(LT_)
+    tw = T in words
+    if tw:
+        gens.append(T + rng.choice(["", ": crate::support::Marker", ": Sized"]) + ("" if True else ""))
+    if use_n and N_ in words:
+        gens.append("const %s: usize" % N_)
+    g = ("<%s>" % ", ".join(gens)) if gens else ""
+    where = ""
+    if gens and rng.random() < 0.4 and not ops_struct:
+        where = " where Self: Sized" + (", %s: crate::support::Marker" % T if tw else "")
+    elif tw and rng.random() < 0.3:
+        where = " where %s: crate::support::Marker" % T
+    if is_enum and "Default" in derived:
+        if not vs:
+            derived.remove("Default")
+        elif len(vs) > 1:
+            k = rng.randrange(len(vs))
+            vs[k] = ("#[default] " + vs[k][0], vs[k][1], vs[k][2])
+    lst = ", ".join(derived)
+    entry = rng.choice(["attr", "derive"])
+    head = ("#[derive_ex::derive_ex(%s)]\n" % lst) if entry == "attr" else ("#[derive(derive_ex::Ex)]\n#[derive_ex(%s)]\n" % lst)
+    X = nm["X"]
+    if is_enum:
+        item = "pub enum %s%s%s { %s }" % (X, g, where, ", ".join(v[0] + body(v[1], v[2], "") for v in vs))
+    else:
+        v = vs[0]
+        if v[1] == "named":
+            item = "pub struct %s%s%s%s" % (X, g, where, body(v[1], v[2], "pub "))
+        else:
+            item = "pub struct %s%s%s%s;" % (X, g, body(v[1], v[2], "pub "), where)
+    text = head + item + "\n\npub fn replay(_h: &str, _b: &[u8]) -> (bool, String) { (true, String::new()) }\n"
+    return Prog(name, text, [], {"describe": "derive_ex(%s) [%s] %s" % (lst, entry, _re.sub(r"\s+", " ", item))})
